@@ -78,13 +78,16 @@ int main(int argc, char** argv) {
             } else if (cmd == "CE" || cmd == "CD") {
                 std::string which;
                 is >> which;
-                std::shared_ptr<fcp::can::ICanSchema> schema;
-                if (which == "s") schema = std::make_shared<fcp::can::CanStaticSchema>();
-                else {
+                // one long-lived wrapper per schema kind, used for every frame of the run (as an application would):
+                // whatever a wrapper remembers from earlier frames must not show in later ones
+                static std::shared_ptr<fcp::can::Can> can_s, can_d;
+                if (which == "s") {
+                    if (!can_s) can_s = std::make_shared<fcp::can::Can>(std::make_shared<fcp::can::CanStaticSchema>());
+                } else {
                     if (!have_dyn) { std::cout << "X no-dynamic-schema " << dyn_err << "\n"; continue; }
-                    schema = std::make_shared<fcp::can::CanDynamicSchema>(dyn);
+                    if (!can_d) can_d = std::make_shared<fcp::can::Can>(std::make_shared<fcp::can::CanDynamicSchema>(dyn));
                 }
-                fcp::can::Can can(schema);
+                fcp::can::Can& can = (which == "s") ? *can_s : *can_d;
                 if (cmd == "CE") {
                     std::string name;
                     is >> name;
